@@ -19,6 +19,7 @@ import (
 	"strings"
 	"syscall"
 	"time"
+	"unsafe"
 
 	"github.com/prometheus/client_golang/prometheus"
 	"github.com/prometheus/common/model"
@@ -39,6 +40,7 @@ type stCase struct {
 	NBlocks int    `json:"nblocks"`
 	Cut     int    `json:"cut"`
 	Bytes   int    `json:"bytes"` // concrete byte offset (-1: derive from cut / nblocks)
+	How     string `json:"how"`   // "fail": the write fails (EFBIG); "kill": the process is killed (SIGXFSZ)
 }
 type stStart struct {
 	OK      bool   `json:"ok"`
@@ -135,6 +137,7 @@ func cmdStoreChild(args []string) error {
 	b := fs.String("b", "", "assignment name")
 	limit := fs.Int("limit", -1, "RLIMIT_FSIZE in bytes (-1 none)")
 	tick := fs.Int64("tick", 0, "virtual clock")
+	kill := fs.Bool("kill", false, "let the kernel kill the process when the limit is hit (default disposition of SIGXFSZ)")
 	_ = fs.Parse(args)
 	sidecar.VerifSetClock(vclockNow)
 	vclockSet(*tick)
@@ -149,6 +152,19 @@ func cmdStoreChild(args []string) error {
 		if err := syscall.Setrlimit(syscall.RLIMIT_FSIZE, &lim); err != nil {
 			fmt.Println("RLIMITFAIL", err)
 			os.Exit(4)
+		}
+		if *kill {
+			// the Go runtime ignores SIGXFSZ; restore the default disposition (terminate)
+			var sa struct {
+				handler  uintptr
+				flags    uint64
+				restorer uintptr
+				mask     uint64
+			}
+			if _, _, e := syscall.RawSyscall6(syscall.SYS_RT_SIGACTION, uintptr(syscall.SIGXFSZ), uintptr(unsafe.Pointer(&sa)), 0, 8, 0, 0); e != 0 {
+				fmt.Println("SIGACTIONFAIL", e)
+				os.Exit(4)
+			}
 		}
 	}
 	err := m.UpdateTargets(&shard.UpdateTargetsRequest{Targets: stAssignment(*b)})
@@ -242,7 +258,11 @@ func runStoreCase(self string, c *stCase) stObs {
 		}
 	}
 	o.Limit = limit
-	cmd = exec.Command(self, "store-child", "-dir", sd, "-b", c.B, "-limit", fmt.Sprint(limit), "-tick", "5")
+	childArgs := []string{"store-child", "-dir", sd, "-b", c.B, "-limit", fmt.Sprint(limit), "-tick", "5"}
+	if c.How == "kill" && limit >= 0 {
+		childArgs = append(childArgs, "-kill")
+	}
+	cmd = exec.Command(self, childArgs...)
 	outb, err := cmd.CombinedOutput()
 	o.Acked = err == nil && strings.Contains(string(outb), "ACK") && !strings.Contains(string(outb), "NACK")
 	if err != nil {
